@@ -54,7 +54,9 @@ Definition exact_ops (table : list (Z * dec)) : numops :=
      n_mult_of := fun a f => match val a, val f with Some x, Some y => dec_mult_of x y | _, _ => MNotMultiple end;
      n_of_int := f_of_Z;
      n_to_int64 := f_to_int64;
-     n_to_uint64 := f_to_uint64 |}.
+     n_to_uint64 := f_to_uint64;
+     n_exact_int := f_exact_int;
+     n_fits_f32 := f_fits_f32 |}.
 
 (* ------------------------------------------------------------------ finding classes *)
 
